@@ -33,19 +33,22 @@ func (c c06Case) String() string {
 }
 
 type c06Obs struct {
-	visits            string
-	missing           []string
-	otherErrs         []string
-	store             string
-	closed            bool
-	paused            bool // the pause actually happened
-	unpauseErrs       int
-	blocksWhilePaused int
-	trace             []string
-	panicked          string
-	nWire             int
-	inflightAtUnpause int
-	pauseErr          string
+	visits              string
+	missing             []string
+	otherErrs           []string
+	store               string
+	closed              bool
+	paused              bool // the pause actually happened
+	unpauseErrs         int
+	blocksWhilePaused   int
+	trace               []string
+	panicked            string
+	nWire               int
+	inflightAtUnpause   int
+	pauseErr            string
+	unpauses            int
+	coincide            bool
+	apiPauseAtHookCount int
 }
 
 func c06Run(cfg vsched.Config, cs c06Case) (*c06Obs, *vsched.Sched) {
@@ -81,7 +84,7 @@ func c06Run(cfg vsched.Config, cs c06Case) (*c06Obs, *vsched.Sched) {
 		resumed := false
 		nIn, nOut := 0, 0
 		switch cs.Mode {
-		case "req-hook":
+		case "req-hook", "req-both":
 			q.GS.RegisterIncomingBlockHook(func(p peer.ID, rd graphsync.ResponseData, b graphsync.BlockData, ha graphsync.IncomingBlockHookActions) {
 				nIn++
 				if nIn == cs.At && !hookPaused {
@@ -148,6 +151,23 @@ func c06Run(cfg vsched.Config, cs c06Case) (*c06Obs, *vsched.Sched) {
 				{Name: "release", Enabled: func() bool { return !released && f.Net.Held > 0 && tried }, Do: func() { released = true; f.Net.ReleaseHeld() }},
 			}, evs...)
 		}
+		if cs.Mode == "req-both" {
+			// an API pause accepted just before the block at which the block hook also asks for a pause
+			tried := false
+			evs = append([]*harness.Event{{
+				Name: "pause",
+				Enabled: func() bool {
+					return !tried && len(f.Net.Node(r.ID).Inbox) > 0 && len(f.Net.Node(q.ID).Inbox) >= cs.At-1 && !res.Closed()
+				},
+				Do: func() {
+					tried = true
+					if err := q.GS.Pause(context.Background(), id); err == nil {
+						apiPaused = true
+						o.apiPauseAtHookCount = nIn
+					}
+				},
+			}}, evs...)
+		}
 		if strings.HasSuffix(cs.Mode, "-api") {
 			evs = append([]*harness.Event{{
 				Name:    "pause",
@@ -162,10 +182,29 @@ func c06Run(cfg vsched.Config, cs c06Case) (*c06Obs, *vsched.Sched) {
 			}}, evs...)
 		}
 		evs = append(evs, &harness.Event{
-			Name:    "unpause",
-			Enabled: func() bool { return (hookPaused || apiPaused) && !resumed && !res.Closed() },
+			Name: "unpause",
+			Enabled: func() bool {
+				if cs.Mode == "req-both" {
+					// every pause is resumed; how many pauses there were is judged
+					st, ok := q.GS.(*gsimpl.GraphSync).PeerState(r.ID).OutgoingState.RequestStates[id]
+					return ok && st == graphsync.Paused && !res.Closed() && o.unpauses < 4
+				}
+				return (hookPaused || apiPaused) && !resumed && !res.Closed()
+			},
 			Do: func() {
 				o.inflightAtUnpause = f.Net.Node(q.ID).Pending(r.ID) + f.Net.Node(r.ID).Pending(q.ID)
+				if cs.Mode == "req-both" {
+					if o.unpauses == 0 {
+						// did the hook's pause and the API's pause land on the same block?
+						o.coincide = hookPaused && apiPaused && nIn == cs.At && o.apiPauseAtHookCount == cs.At-1
+					}
+					if err := side.GS.Unpause(context.Background(), id); err == nil {
+						o.unpauses++
+					} else {
+						o.unpauseErrs++
+					}
+					return
+				}
 				if err := side.GS.Unpause(context.Background(), id); err != nil {
 					o.unpauseErrs++
 					if o.unpauseErrs > 3 {
@@ -212,6 +251,32 @@ func c06Judge(cs c06Case, o *c06Obs) *core.Violation {
 	v := func(sig, what string) *core.Violation {
 		// cause: a requestor-side resume issued while messages of the cancelled
 		// incarnation are still in flight (they carry the same request id)
+		if strings.HasPrefix(cs.Mode, "req-") && o.inflightAtUnpause == 0 && (sig == "delivered-nodes-differ" || sig == "errors-differ") {
+			// cause: after a resume the requestor asks the responder to skip the blocks it has traversed, but the
+			// responder counts the links of its own traversal, which differs when it lacks a block inside that
+			// prefix: a block only the responder holds falls into the skipped window (C02's skip-prefix finding
+			// seen through pause/resume)
+			lacksR := false
+			for _, v := range cs.Split {
+				lacksR = lacksR || v&2 == 0
+			}
+			extraHeldByR := len(o.missing) > len(base.missing)
+			for _, m := range o.missing {
+				inBase := false
+				for _, b := range base.missing {
+					inBase = inBase || b == m
+				}
+				if !inBase {
+					var bi int
+					if _, err := fmt.Sscanf(m, "missing:b%d@", &bi); err != nil || bi >= len(cs.Split) || cs.Split[bi]&2 == 0 {
+						extraHeldByR = false
+					}
+				}
+			}
+			if lacksR && extraHeldByR && len(o.otherErrs) == 0 {
+				sig = "resume-skip-window-misaligned/responder-lacks-block-inside-traversed-prefix"
+			}
+		}
 		if strings.HasPrefix(cs.Mode, "req-") && o.inflightAtUnpause > 0 && sig != "panic" && sig != "block-data-sent-while-paused" {
 			sig = "requestor-resume-while-old-response-in-flight/stale-messages-taken-for-the-new-request"
 		}
@@ -225,6 +290,9 @@ func c06Judge(cs c06Case, o *c06Obs) *core.Violation {
 	}
 	if !o.closed {
 		return v("never-completes-after-resume", fmt.Sprintf("the request did not terminate (unpause errors: %d); uninterrupted it delivers [%s]", o.unpauseErrs, shorten(base.visits)))
+	}
+	if cs.Mode == "req-both" && o.coincide && o.unpauses > 1 {
+		return v("paused-again-after-resume", fmt.Sprintf("the block hook and the API asked for a pause at the same block, yet after resuming once the request paused again (%d resumes were needed)", o.unpauses))
 	}
 	if o.blocksWhilePaused > 0 {
 		return v("block-data-sent-while-paused", fmt.Sprintf("%d blocks left the responder after the paused status and before the unpause call", o.blocksWhilePaused))
@@ -284,13 +352,22 @@ func c06Cases(thorough bool) []c06Case {
 		}
 		for _, sn := range sels {
 			for _, sp := range splits {
-				for _, mode := range []string{"req-hook", "resp-hook", "resp-reqhook", "req-api", "resp-api", "resp-api-held"} {
+				for _, mode := range []string{"req-hook", "resp-hook", "resp-reqhook", "req-api", "resp-api", "resp-api-held", "req-both"} {
 					lo, hi := 1, n
 					if mode == "resp-reqhook" {
 						lo, hi = 1, 1
 					}
 					if mode == "resp-api-held" {
 						lo, hi = 0, n
+						if !thorough {
+							hi = 1
+						}
+					}
+					if !thorough && strings.HasSuffix(mode, "-api") {
+						hi = 2
+					}
+					if !thorough && mode == "req-both" {
+						hi = min(n, 2)
 					}
 					if strings.HasSuffix(mode, "-api") {
 						lo, hi = 0, 4
@@ -338,7 +415,7 @@ func runC06(c *core.Ctx) {
 
 func init() {
 	core.Register(&core.Prop{ID: "C06", Level: "model_checking",
-		Rule:        "shapes (N<=3 + a 4-chain; thorough N<=4 catalogue) x splits (responder holds the root, requestor lacks something, responder lacks <=1 block in quick) x selectors x pause by {requestor block hook, responder block hook at block 1..N, responder request hook, requestor API, responder API after 0..4 deliveries, responder API while a send from index k on is stalled under a one-block allowance (the pause lands on whatever link comes next, present or missing)}; network gated: after every event (deliver next message on a link, pause call, unpause call) the two real instances run to quiescence; every order of events within the deviation bound from the natural order (deliver everything, resume last) is executed; a class is (pause kind, pause happened, number of events)",
+		Rule:        "shapes (N<=3 + a 4-chain; thorough N<=4 catalogue) x splits (responder holds the root, requestor lacks something, responder lacks <=1 block in quick) x selectors x pause by {requestor block hook, responder block hook at block 1..N, responder request hook, requestor API, requestor block hook and API for the same block, responder API after 0..4 deliveries, responder API while a send from index k on is stalled under a one-block allowance (the pause lands on whatever link comes next, present or missing)}; network gated: after every event (deliver next message on a link, pause call, unpause call) the two real instances run to quiescence; every order of events within the deviation bound from the natural order (deliver everything, resume last) is executed; a class is (pause kind, pause happened, number of events)",
 		Assumptions: []string{"differential oracle: the same configuration run uninterrupted (C02 ties that to the reference traversal)", "event-level interleavings (message granularity); schedules inside one event are the default", "an unpause that is refused because the pause has not taken effect yet is retried"},
 		Run:         runC06, QuickBudget: 300, ThoroughBudget: 2400,
 		Replay: func(raw json.RawMessage) string {
